@@ -286,10 +286,9 @@ theorem SeqEffect.inv {cr : Crypto π σ β} {cfg : Config} {tx : Tx π σ} {s s
 /-! ### the other steps -/
 
 omit [DecidableEq π] in
-theorem credit_evolves_inv (cr : Crypto π σ β) (s : State π) (a : Addr) (amt : Nat) (hi : Inv cr s) :
-    Evolves s (credit s a amt) ∧ Inv cr (credit s a amt) := by
-  have hrel := credit_feeRel s a amt
-  have hnext : s.nextAccNum ≤ (credit s a amt).nextAccNum := by
+theorem FeeRel.evolves_inv (cr : Crypto π σ β) {c : Addr} {s s' : State π} (hrel : FeeRel c s s') (hi : Inv cr s) :
+    Evolves s s' ∧ Inv cr s' := by
+  have hnext : s.nextAccNum ≤ s'.nextAccNum := by
     rcases hrel.next with e | ⟨_, e⟩ <;> omega
   refine ⟨⟨hnext, ?_, ?_, Nat.le_of_eq hrel.height.symm⟩, ⟨?_, ?_, ?_, ?_⟩⟩
   · intro x acc hx
@@ -338,6 +337,11 @@ theorem credit_evolves_inv (cr : Crypto π σ β) (s : State π) (a : Addr) (amt
   · intro m k ss hs
     rw [hrel.sessions] at hs
     exact hi.sessKey m k ss hs
+
+omit [DecidableEq π] in
+theorem credit_evolves_inv (cr : Crypto π σ β) (s : State π) (a : Addr) (amt : Nat) (hi : Inv cr s) :
+    Evolves s (credit s a amt) ∧ Inv cr (credit s a amt) :=
+  (credit_feeRel s a amt).evolves_inv cr hi
 
 omit [DecidableEq π] in
 theorem beginBlock_evolves_inv (cr : Crypto π σ β) (s : State π) (dt : Nat) (hi : Inv cr s) :
@@ -397,7 +401,7 @@ theorem step_evolves_inv (cr : Crypto π σ β) (cfg : Config) (s : State π) (o
     simp only [step]
     by_cases hacc : Accepted (deliver cr cfg s t).2
     · obtain ⟨s1, ha, hm⟩ := deliver_accepted cr cfg s t hacc
-      have he := ante_seq_effect cr cfg s t s1 hh ha
+      have he := ante_seq_effect cr cfg s t s1 (fun h => hh h.1) ha
       refine ⟨he.evolves.trans hm.evolves, hm.inv (he.inv hi), ?_⟩
       rw [hm.height, he.height]
       exact hh
@@ -411,6 +415,32 @@ theorem step_evolves_inv (cr : Crypto π σ β) (cfg : Config) (s : State π) (o
     simp only [step]
     have := credit_evolves_inv cr s a amt hi
     exact ⟨this.1, this.2, by rw [(credit_feeRel s a amt).height]; exact hh⟩
+
+/-- the invariant holds along every history, genesis height included -/
+theorem step_inv (cr : Crypto π σ β) (cfg : Config) (s : State π) (o : Op π σ) (hi : Inv cr s) :
+    Inv cr (step cr cfg s o) := by
+  cases o with
+  | tx t =>
+    simp only [step]
+    by_cases hacc : Accepted (deliver cr cfg s t).2
+    · obtain ⟨s1, ha, hm⟩ := deliver_accepted cr cfg s t hacc
+      by_cases hg : s.height = 0 ∧ cfg.verifyGenesis = false
+      · exact hm.inv ((ante_genesis_skip cr cfg s t s1 hg ha).evolves_inv cr hi).2
+      · exact hm.inv ((ante_seq_effect cr cfg s t s1 hg ha).inv hi)
+    · rw [deliver_not_accepted cr cfg s t hacc]
+      exact hi
+  | block dt => exact (beginBlock_evolves_inv cr s dt hi).2
+  | fund a amt => exact (credit_evolves_inv cr s a amt hi).2
+
+theorem run_inv (cr : Crypto π σ β) (cfg : Config) : ∀ (ops : List (Op π σ)) (s : State π),
+    Inv cr s → Inv cr (run cr cfg s ops)
+  | [], _, hi => hi
+  | o :: ops, s, hi => run_inv cr cfg ops _ (step_inv cr cfg s o hi)
+
+omit [DecidableEq π] in
+theorem init_inv (cr : Crypto π σ β) (t : Int) : Inv cr (init t : State π) :=
+  ⟨fun _ _ h => by simp [init] at h, fun _ _ _ h => by simp [init] at h,
+   fun _ _ _ h => by simp [init] at h, fun _ _ _ h => by simp [init] at h⟩
 
 theorem run_evolves_inv (cr : Crypto π σ β) (cfg : Config) : ∀ (ops : List (Op π σ)) (s : State π),
     s.height ≠ 0 → Inv cr s →
